@@ -26,11 +26,10 @@ types and values as in `tyOfSexp` / `valOfSexp`.  The top-level labels are empty
 
 Answer: `<value> <ok|err> <implied type> <notes>` or `crash <implied type> <notes>`, where the notes are a
 comma-separated list (`-` when empty) of the places where the model is knowingly coarser than go-cty:
-`unsupported:<what>` (a conversion outside the fragment of `convert`, or one of the places listed in `audit` where the
-decoder model is knowingly not the code: nothing but the implied type is comparable) and `blocklist-mixed*<n>`
+`unsupported:<what>` (a conversion outside the fragment of `convert`, or a result of `convert` that go-cty cannot
+represent: nothing but the implied type is comparable) and `blocklist-mixed*<n>`
 (n BlockLists, counted per decoded occurrence, whose elements have different types: the model answers `cty.DynamicVal` + error, which is what the code
-does only when `convert.UnifyUnsafe` finds no common type) and `blockmap-mixed` (a BlockMap whose elements have
-different types, e.g. through an empty multi-label BlockMap inside: `cty.MapVal` panics, the model returns a map).  `bad-input <what>` when the line does not parse.
+does only when `convert.UnifyUnsafe` finds no common type).  `bad-input <what>` when the line does not parse.
 -/
 
 namespace DecWire
@@ -91,14 +90,6 @@ partial def dynColl : Val → Bool
   | _ => false
 end
 
-/-- some map built by `mtVal` has elements of different types (`cty.MapVal` panics on those) -/
-partial def mtMixed : MTree → Bool
-  | .leaf _ => false
-  | .node kids =>
-    (match (mtVals kids).map (·.2.typeOf) with
-     | [] => false
-     | t :: ts => !(ts.all (· == t))) || kids.any fun k => mtMixed k.2
-
 def convNote (v : Val) (t : Ty) : List String :=
   match convert v t with
   | .error (.unsupported w) => ["unsupported:" ++ w.replace " " "-"]
@@ -127,26 +118,13 @@ partial def audit : Spec → List DAttr → List DBlock → List String → List
   | .blockTuple type nested _ _, _, blocks, _ =>
     (blocksOf type blocks).flatMap fun b => audit nested b.attrs b.blocks b.labels
   | .blockMap type n nested, _, blocks, _ =>
-    let bs := blocksOf type blocks
-    -- outside the documented precondition (at least one label name) the code panics only when it meets a block
-    if n == 0 && bs.isEmpty && !hasDyn (impliedType nested) then ["unsupported:no-label-names-and-no-block"]
-    else
-      let sub := bs.flatMap fun b => audit nested b.attrs b.blocks (b.labels.drop n)
-      if n == 0 || hasDyn (impliedType nested) then sub
-      else match decodeMap nested n bs (.node []) false with
-        | some (t, _) => if mtMixed t then sub ++ ["blockmap-mixed"] else sub
-        | none => sub
+    (blocksOf type blocks).flatMap fun b => audit nested b.attrs b.blocks (b.labels.drop n)
   | .blockObject type n nested, _, blocks, _ =>
-    let bs := blocksOf type blocks
-    if n == 0 && bs.isEmpty then ["unsupported:no-label-names-and-no-block"]
-    else bs.flatMap fun b => audit nested b.attrs b.blocks (b.labels.drop n)
+    (blocksOf type blocks).flatMap fun b => audit nested b.attrs b.blocks (b.labels.drop n)
   | .blockAttrs type ety _, _, blocks, _ =>
     match blocksOf type blocks with
     | [] => []
-    | b :: _ =>
-      -- `cty.MapVal(vals)`: the element type is that of the values, and values of different types panic
-      if hasDyn ety && !b.attrs.isEmpty then ["unsupported:blockattrs-dynamic-element-type"]
-      else b.attrs.flatMap fun x => convNote x.val ety
+    | b :: _ => b.attrs.flatMap fun x => convNote x.val ety
   | .blockLabel _, _, _, _ => []
   | .default primary fallback, a, b, l =>
     audit primary a b l ++
